@@ -125,8 +125,10 @@ class Env:
         orig_notify = set_service.notify_operation
 
         def notify_operation(operation, transaction_id, invocation_state, *a, **k):
-            self.op_states.setdefault(transaction_id, []).append(getattr(invocation_state, 'value', str(invocation_state)))
-            return orig_notify(operation, transaction_id, invocation_state, *a, **k)
+            try:
+                return orig_notify(operation, transaction_id, invocation_state, *a, **k)
+            finally:   # recorded AFTER the notification has been delivered: quiesce() waits for the end of the delivery
+                self.op_states.setdefault(transaction_id, []).append(getattr(invocation_state, 'value', str(invocation_state)))
         set_service.notify_operation = notify_operation
         self.seeds = []
         self.last_snap = None
@@ -135,7 +137,7 @@ class Env:
         orig_post, orig_get = mw.do_post, mw.do_get
 
         def do_post(headers, path, peer, request_bytes):
-            rec = {'role': role, 'kind': 'post', 'ret': None, 'exc': None}
+            rec = {'role': role, 'kind': 'post', 'ret': None, 'exc': None, 'thread': threading.get_ident()}
             self.mw_log.append(rec)
             try:
                 r = orig_post(headers, path, peer, request_bytes)
@@ -146,7 +148,7 @@ class Env:
                 raise
 
         def do_get(headers, path, peer):
-            rec = {'role': role, 'kind': 'get', 'ret': None, 'exc': None}
+            rec = {'role': role, 'kind': 'get', 'ret': None, 'exc': None, 'thread': threading.get_ident()}
             self.mw_log.append(rec)
             try:
                 r = orig_get(headers, path, peer)
@@ -1002,7 +1004,8 @@ def run_case(env: Env, ctx, role, raw, info, seed_name):
         ctx.witness(f'escape.outside_do.{func}.{type(res.escaped).__name__}', 'exception left the request handler outside do_POST/do_GET',
                     {**detail, 'tb': res.escaped_tb})
     # ---- (4) SOAP layer: fault for everything it rejected, valid envelope for everything it accepted
-    mw = [m for m in env.mw_log if m['role'] == role]
+    me = threading.get_ident()   # (notifications delivered by library threads at the same time are not part of this connection)
+    mw = [m for m in env.mw_log if m['role'] == role and m['thread'] == me]
     ctx.count('monitor.soap_layer_reached', len(mw))
     for m in mw:
         if m['exc'] is not None:
